@@ -295,7 +295,9 @@ func devLiveness(r *mc.Run, cfgs []NamedConfig, cov map[string]any, only string)
 		silent    bool
 	}
 	// bounds are iterated: the smaller one is completed before the larger one is attempted
-	bounds := []bound{{1, 1, false, false}, {1, 2, false, true}, {2, 2, true, true}, {1, 2, false, false}}
+	// quick order: the four-node placements with the Byzantine node silent-but-spamming after GST first (k <= 1, then
+	// k <= 2), then the committee-changing configurations with a one-round prefix, then the rest
+	bounds := []bound{{1, 2, true, true}, {2, 2, true, true}, {1, 1, false, false}, {1, 2, false, true}, {1, 2, false, false}}
 	if !r.Quick() {
 		bounds = []bound{{1, 1, false, false}, {1, 2, false, true}, {1, 2, false, false}, {2, 1, false, false}, {2, 2, false, true}, {2, 2, false, false}, {2, 3, false, true}, {3, 2, true, true}}
 	}
@@ -309,6 +311,9 @@ func devLiveness(r *mc.Run, cfgs []NamedConfig, cov map[string]any, only string)
 			}
 			if bd.devRounds == 1 && !change {
 				continue // a one-round prefix only adds something where the root height moves at GST
+			}
+			if bd.devRounds == 1 && r.Quick() && !nc.Cfg.GSTBump {
+				continue // quick: with a one-round prefix only the variants in which the root height moves at GST
 			}
 			if bd.silent && nc.Cfg.Byz < 0 {
 				continue
